@@ -950,9 +950,14 @@ class REPEX_state:
                                 )
                                 if os.path.isfile(txt_adress):
                                     os.remove(txt_adress)
-                            os.rmdir(
-                                os.path.join(load_dir, pn_old_del, "accepted")
+                            acc_dir = os.path.join(
+                                load_dir, pn_old_del, "accepted"
                             )
+                            # files stored next to the trajectory files
+                            # (output.keep_traj_fnames) go with the path
+                            for extra in os.listdir(acc_dir):
+                                os.remove(os.path.join(acc_dir, extra))
+                            os.rmdir(acc_dir)
                             os.rmdir(os.path.join(load_dir, pn_old_del))
                         # pop the deleted path.
                         self.pn_olds.pop(pn_old_del)
